@@ -242,7 +242,21 @@ pub fn gen_patch(rng: &mut Rng, tree: &mut Tree, allow_fail: bool, rich: bool) -
             let shift = if rng.chance(10) && c > 0 { *rng.pick(&[1i64, -1, 2, 3]) } else { 0 };
             let new_mode = if rng.chance(10) { Some(*rng.pick(&MODES)) } else { None };
             let hs = render_hunks(&ops, c, corrupt, shift);
-            text.extend_from_slice(&render_header(&HeaderSpec { old: Some(&name), new: Some(&name), dialect, p, rename: false,
+            // two different real names on a plain (non-rename) file patch: the one to patch is the old
+            // name if that file exists at this point of the series, else the new one (C16).  The other
+            // name is mostly one that does not exist now (possibly deleted or renamed away by an earlier
+            // patch of the series), so that the patch still means `name`.
+            let other: Option<String> = if rng.chance(14) {
+                let gone: Vec<&str> = NAMES.iter().cloned().filter(|n| !tree.contains_key(*n)).collect();
+                if !gone.is_empty() && rng.chance(80) { Some(gone[rng.below(gone.len())].to_string()) }
+                else { let ex: Vec<&String> = tree.keys().filter(|k| **k != name).collect(); if ex.is_empty() { None } else { Some(ex[rng.below(ex.len())].clone()) } }
+            } else { None };
+            let (old_name, new_name): (String, String) = match &other {
+                Some(o) if !tree.contains_key(o) && rng.chance(50) => (o.clone(), name.clone()),    // old gone -> new is patched
+                Some(o) => (name.clone(), o.clone()),                                                // old exists -> old is patched
+                None => (name.clone(), name.clone()),
+            };
+            text.extend_from_slice(&render_header(&HeaderSpec { old: Some(&old_name), new: Some(&new_name), dialect, p, rename: false,
                 old_mode: new_mode.map(|_| f.mode), new_mode, creating: false, deleting: false, has_hunks: true }));
             text.extend_from_slice(&hs);
             if corrupt.is_some() { ok = false; }
